@@ -25,7 +25,8 @@ EXTENDS Naturals, Integers, Sequences, FiniteSets, TLC
 
 CONSTANTS Policy,      \* "exit" | "ignore" | "after-n"
           AfterN,      \* for "after-n": exits on the n-th SIGTERM
-          MaxTime
+          MaxTime,
+          MaxStops     \* how many stop / continue status changes the child may go through
 
 Mon == INSTANCE MonSig
 Pid == 101
@@ -33,8 +34,9 @@ SIGTERM_ == 15
 SIGKILL_ == 9
 Interval == 5
 
-VARIABLES now, child, statusq, wdead, wreg, wpend, ch, open, timer, nkills, nterm, submitted, mon
-vars == <<now, child, statusq, wdead, wreg, wpend, ch, open, timer, nkills, nterm, submitted, mon>>
+VARIABLES now, child, statusq, wdead, wreg, wpend, ch, open, timer, nkills, nterm, submitted, mon, nstops
+vars == <<now, child, statusq, wdead, wreg, wpend, ch, open, timer, nkills, nterm, submitted, mon, nstops>>
+NT == -1       \* a status that is not a termination (stopped / continued)
 
 Ev(rec) == Mon!SStep(mon, rec)
 Ts == <<1000 + now, 0>>
@@ -42,27 +44,35 @@ Ts == <<1000 + now, 0>>
 Init ==
   /\ now = 0 /\ child = "none" /\ statusq = <<>> /\ wdead = FALSE /\ wreg = FALSE /\ wpend = <<>>
   /\ ch = FALSE /\ open = FALSE /\ timer = -1 /\ nkills = 0 /\ nterm = 0 /\ submitted = FALSE
-  /\ mon = Mon!SInit
+  /\ mon = Mon!SInit /\ nstops = 0
 
 Submit ==
   /\ ~submitted /\ submitted' = TRUE
   /\ child' = "running" /\ ch' = TRUE /\ open' = TRUE /\ wreg' = TRUE /\ wdead' = FALSE
   /\ mon' = Mon!SStep(Mon!SStep(mon, [e |-> "Fork", pid |-> Pid, t |-> 0]),
                       [e |-> "A", op |-> "popen", o |-> 1, a |-> 0, r |-> 0, t |-> 0])
-  /\ UNCHANGED <<now, statusq, wpend, timer, nkills, nterm>>
+  /\ UNCHANGED <<now, statusq, wpend, timer, nkills, nterm, nstops>>
 
 Close ==   \* (bounded time: late closes would run into the end of the clock)
   /\ open /\ now + 32 <= MaxTime /\ open' = FALSE
   /\ IF ch THEN timer' = now /\ nkills' = 0 ELSE UNCHANGED <<timer, nkills>>
   /\ mon' = Ev([e |-> "A", op |-> "popen_close", o |-> 1, t |-> 0])
-  /\ UNCHANGED <<now, child, statusq, wdead, wreg, wpend, ch, nterm, submitted>>
+  /\ UNCHANGED <<now, child, statusq, wdead, wreg, wpend, ch, nterm, submitted, nstops>>
 
 (* the child ends by itself *)
 ChildExit ==
   /\ child = "running" /\ child' = "zombie"
   /\ statusq' = Append(statusq, 0)
   /\ mon' = Ev([e |-> "Child", pid |-> Pid, what |-> 0, arg |-> 0, st |-> 0, t |-> 0])
-  /\ UNCHANGED <<now, wdead, wreg, wpend, ch, open, timer, nkills, nterm, submitted>>
+  /\ UNCHANGED <<now, wdead, wreg, wpend, ch, open, timer, nkills, nterm, submitted, nstops>>
+
+(* the child is stopped or continued (job control, a debugger): iv_wait reports the status,
+   which is not a termination *)
+ChildStopCont ==
+  /\ child = "running" /\ nstops < MaxStops /\ nstops' = nstops + 1
+  /\ statusq' = Append(statusq, NT)
+  /\ mon' = Ev([e |-> "Child", pid |-> Pid, what |-> 2, arg |-> 19, st |-> 4991, t |-> 0])
+  /\ UNCHANGED <<now, child, wdead, wreg, wpend, ch, open, timer, nkills, nterm, submitted>>
 
 (* what kill(pid, sig) does to the child *)
 KillEffect(sig) ==
@@ -88,29 +98,38 @@ TimerFire ==
                           THEN Mon!SStep(m1, [e |-> "Child", pid |-> Pid, what |-> 1, arg |-> sig, st |-> sig, t |-> 0])
                           ELSE m1
           /\ UNCHANGED <<wreg, ch, wpend>>
-  /\ UNCHANGED <<now, wdead, open, submitted>>
+  /\ UNCHANGED <<now, wdead, open, submitted, nstops>>
 
-Reap ==   \* iv_wait_got_sigchld for this child
+Terminal(q) == \E k \in 1..Len(q) : q[k] # NT
+Reap ==   \* iv_wait_got_sigchld for this child: every status the kernel has for it
   /\ statusq # <<>>
-  /\ statusq' = <<>> /\ child' = "none"
-  /\ IF wreg /\ ~wdead THEN wpend' = wpend \o statusq /\ wdead' = TRUE
+  /\ statusq' = <<>> /\ child' = IF Terminal(statusq) THEN "none" ELSE child
+  /\ IF wreg /\ ~wdead THEN wpend' = wpend \o statusq /\ wdead' = Terminal(statusq)
                        ELSE UNCHANGED <<wpend, wdead>>
-  /\ mon' = Ev([e |-> "Reap", pid |-> Pid, st |-> statusq[1], dead |-> 1, t |-> 0])
-  /\ UNCHANGED <<now, wreg, ch, open, timer, nkills, nterm, submitted>>
+  /\ mon' = LET RECURSIVE R(_, _)
+                R(m, k) == IF k > Len(statusq) THEN m
+                           ELSE R(Mon!SStep(m, [e |-> "Reap", pid |-> Pid, st |-> (IF statusq[k] = NT THEN 4991 ELSE statusq[k]),
+                                                dead |-> (IF statusq[k] = NT THEN 0 ELSE 1), t |-> 0]), k + 1)
+            IN R(mon, 1)
+  /\ UNCHANGED <<now, wreg, ch, open, timer, nkills, nterm, submitted, nstops>>
 
-WaitHandler ==   \* iv_popen_running_child_wait with a terminating status
+WaitHandler ==   \* iv_popen_running_child_wait: one queued status per call
   /\ wreg /\ wpend # <<>>
-  /\ wpend' = <<>> /\ wreg' = FALSE /\ ch' = FALSE
-  /\ timer' = IF open THEN timer ELSE -1
-  /\ UNCHANGED <<now, child, statusq, wdead, open, nkills, nterm, submitted, mon>>
+  /\ wpend' = Tail(wpend)
+  /\ IF Head(wpend) = NT
+     THEN (* neither WIFEXITED nor WIFSIGNALED: ignored *)
+          UNCHANGED <<wreg, ch, timer>>
+     ELSE /\ wreg' = FALSE /\ ch' = FALSE
+          /\ timer' = IF open THEN timer ELSE -1
+  /\ UNCHANGED <<now, child, statusq, wdead, open, nkills, nterm, submitted, mon, nstops>>
 
 Due == (ch /\ ~open /\ timer >= 0 /\ timer <= now) \/ statusq # <<>> \/ (wreg /\ wpend # <<>>)
 
 Tick ==
   /\ ~Due /\ now < MaxTime /\ now' = now + 1
-  /\ UNCHANGED <<child, statusq, wdead, wreg, wpend, ch, open, timer, nkills, nterm, submitted, mon>>
+  /\ UNCHANGED <<child, statusq, wdead, wreg, wpend, ch, open, timer, nkills, nterm, submitted, mon, nstops>>
 
-Next == Submit \/ Close \/ ChildExit \/ TimerFire \/ Reap \/ WaitHandler \/ Tick
+Next == Submit \/ Close \/ ChildExit \/ ChildStopCont \/ TimerFire \/ Reap \/ WaitHandler \/ Tick
 Spec == Init /\ [][Next]_vars
 FairSpec == Spec /\ WF_vars(TimerFire \/ Reap \/ WaitHandler \/ Tick) /\ WF_vars(Close)
 
